@@ -92,15 +92,16 @@ type Contracts struct {
 	Locks   []*LockSpec
 	Lemmas  []*Lemma
 	Benign  []string
+	Immut   map[string]map[string]bool // pkgpath -> "Type.field"
 	Files   []string
 }
 
 func newContracts() *Contracts {
-	return &Contracts{Externs: map[string]*FuncContract{}, Preds: map[string]*Pred{}, Ghosts: map[string]*GhostVar{}}
+	return &Contracts{Externs: map[string]*FuncContract{}, Preds: map[string]*Pred{}, Ghosts: map[string]*GhostVar{}, Immut: map[string]map[string]bool{}}
 }
 
 var topKeywords = map[string]bool{"func": true, "extern": true, "pred": true, "ghost": true, "lock": true,
-	"lemma": true, "axiom": true, "benign": true, "fn": true}
+	"lemma": true, "axiom": true, "benign": true, "fn": true, "immutable": true}
 var clauseKeywords = map[string]bool{"props": true, "arith": true, "requires": true, "ensures": true,
 	"modifies": true, "loop": true, "invariant": true, "decreases": true, "unroll": true, "trusted": true,
 	"maypanic": true, "guarantee": true, "guards": true, "ghostparam": true, "inst": true}
@@ -376,7 +377,7 @@ func (cs *Contracts) loadFile(path, pkgPath string) error {
 			}
 			curLock = &LockSpec{Pkg: pkgPath, Type: tf[0], Field: tf[1]}
 			if i := strings.Index(l.rest, "guards"); i >= 0 {
-				for _, g := range strings.Split(l.rest[i+6:], ",") {
+				for _, g := range splitTopLevel(l.rest[i+6:], ',') {
 					if g = strings.TrimSpace(g); g != "" {
 						curLock.Guards = append(curLock.Guards, g)
 					}
@@ -398,6 +399,15 @@ func (cs *Contracts) loadFile(path, pkgPath string) error {
 			}
 			curLemma = &Lemma{Name: ll.name, Clause: c, Axiom: l.kw == "axiom", OptIn: optin, Pkg: pkgPath}
 			cs.Lemmas = append(cs.Lemmas, curLemma)
+		case "immutable":
+			if cs.Immut[pkgPath] == nil {
+				cs.Immut[pkgPath] = map[string]bool{}
+			}
+			for _, b := range strings.Split(l.rest, ",") {
+				if b = strings.TrimSpace(b); b != "" {
+					cs.Immut[pkgPath][b] = true
+				}
+			}
 		case "benign":
 			for _, b := range strings.Split(l.rest, ",") {
 				if b = strings.TrimSpace(b); b != "" {
